@@ -448,6 +448,31 @@ class Check(Property):
                     if not seen or abs(seen[0] - want) > 1e-9 * want:
                         v.append(f"C17 @with_context('sp', n={n_}) around wraps(('terahertz',)), {label} call with 530 nm: the function received "
                                  f"{seen[0] if seen else None}, the context's rule with n={n_} gives {want}")
+            # a decorated function that refuses its argument (or raises itself) leaves the registry as it was: afterwards an
+            # undecorated wraps still refuses what only the context could convert
+            plain_w = fl.wraps(None, "terahertz")(lambda f_: f_)
+            in_sp = fl.with_context("sp")(fl.wraps(None, "terahertz")(lambda f_: f_))
+            checked = fl.with_context("sp")(fl.check("[length]")(lambda x_: x_))
+
+            def boom(f_):
+                raise RuntimeError("inside")
+            raising = fl.with_context("sp")(fl.wraps(None, "terahertz")(boom))
+            for label, call in (("wraps refusing 1 kg", lambda: in_sp(fl.Quantity(1.0, "kilogram"))), ("check refusing 1 s", lambda: checked(fl.Quantity(1.0, "second"))),
+                                ("the function raising", lambda: raising(lam))):
+                try:
+                    call()
+                except Exception:  # noqa: BLE001
+                    pass
+                leaked = [c_.name for c_ in fl._active_ctx.contexts]
+                try:
+                    got_ = plain_w(lam)
+                    outcome = f"received {got_}"
+                except Exception as exc:  # noqa: BLE001
+                    outcome = type(exc).__name__
+                if leaked or outcome != "DimensionalityError":
+                    v.append(f"C17 after a @with_context('sp') function ended with an exception ({label}): active contexts {leaked}, an undecorated "
+                             f"wraps(None, 'terahertz') called with 530 nm: {outcome} (DimensionalityError expected)")
+                    fl.disable_contexts()
         except Exception as exc:  # noqa: BLE001
             v.append(f"C17 with_context + wraps probe raised {type(exc).__name__}: {exc}")
         # a conversion only an active context allows: inside the context the rule applies, outside the call is refused
